@@ -60,6 +60,15 @@ def answer(q):
                 key = json.dumps([t_out(x) for x in roll])
                 agg[key] = agg.get(key, 0) + c
             return {"ok": sorted([json.loads(kk), v] for kk, v in agg.items() if v > 0)}
+        if k == "umap_lowest":
+            # a relabelling that folds outcomes together, then the reduction of the RESULT
+            a = mk_h(q["a"])
+            f = {"abs": abs, "even": lambda o: o % 2 == 0, "half": lambda o: o // 2, "neg": lambda o: -o}[q["f"]]
+            r = a.umap(f)
+            low = r.lowest_terms()
+            import math
+            g = math.gcd(*[c for c in low.counts()]) if len(low) else 1
+            return {"ok": [t_hist(low), g, r == low, hash(r) == hash(low), len({r, low})]}
         if k == "rwc_peek":
             # a consumer that stops early (peeks at the first rolls, breaks out of a loop, any(), ...)
             p = P(*[mk_h(d) for d in q["dice"]])
